@@ -6,12 +6,14 @@ from ..engine import tables
 from ..engine.pyindex import walk_no_nested
 
 ID = 'C09'
-TECHNIQUE = 'key-injectivity obligations on the constant-pooling keys (AST dataflow from key construction to GlobalState pooling dictionaries)'
+TECHNIQUE = 'key-injectivity obligations on the constant-pooling keys (AST dataflow from key construction to GlobalState pooling dictionaries); abstract interpretation of the big-integer text encoder over a finite sign domain'
 DECIDES = ('K3: every key under which a Python constant object is pooled (GlobalState.dedup_const_index via get_py_const(dedup_key=...), num_const_index via get_int_const/get_float_const) '
            'is an injective encoding of what CPython distinguishes: (i) a raw numeric constant_result appears in a key only together with a sign-preserving text encoding (repr/literal text) of the same value '
            '(0.0 == -0.0, 1 == 1.0 == True), (ii) item keys are collected in an order-preserving container unless the items are characters of one string, (iii) a type tag accompanies each value, '
-           '(iv) numeric literal pools are keyed by the literal text, never by a converted number; LEX1-lite: a decimal literal with a leading zero is rejected by the parser before Utils.str_to_number sees it.')
-NOT_DECIDED = 'constant folding arithmetic and the digit-level encoding of big integers.'
+           '(iv) numeric literal pools are keyed by the literal text, never by a converted number; LEX1-lite: a decimal literal with a leading zero is rejected by the parser before Utils.str_to_number sees it. '
+           'B32: the base-32 text encoding of big integer constants keeps the sign ("-" first for negatives only), returns the digits most significant first, runs its digit loop on non-negative values only, '
+           'and mask, shift, alphabet and the PyLong_FromString base agree (abstract interpretation over the sign domain {<0, 0, >0}).')
+NOT_DECIDED = 'constant folding arithmetic; the numeric value of each emitted base-32 digit beyond mask/shift/alphabet agreement.'
 
 SIGN_SAFE = ('repr', 'str', 'hex', 'copysign')
 
@@ -150,4 +152,5 @@ def rule_leading_zero(ctx):
 
 
 def run(ctx):
-    return [rule_dedup_key(ctx), rule_num_keys(ctx), rule_leading_zero(ctx)]
+    from ..rules import b32
+    return [rule_dedup_key(ctx), rule_num_keys(ctx), rule_leading_zero(ctx), b32.rule_b32(ctx)]
